@@ -164,6 +164,14 @@ func parseCase(tag string, der []byte, hint any) {
 		res = "(Some " + t + ")"
 		if ek, ok := k.(*ecdsa.PrivateKey); ok {
 			pub = cqBytes(pointBytes(ek.Curve, ek.X, ek.Y))
+			// the curve arithmetic oracle is computed here from the scalar with the harness's own curve table, not taken from what
+			// gopki returned: a public point that does not belong to the scalar shows up as a difference
+			for n, c := range curveByName {
+				if n != "" && c.Params().Name == ek.Curve.Params().Name && c.Params().N.Cmp(ek.Curve.Params().N) == 0 && ek.D.Sign() > 0 {
+					ref := ecKey(n, ek.D)
+					pub = cqBytes(pointBytes(ref.Curve, ref.X, ref.Y))
+				}
+			}
 		}
 	} else if ek, ok := hint.(*ecdsa.PrivateKey); ok {
 		pub = cqBytes(pointBytes(ek.Curve, ek.X, ek.Y))
@@ -204,6 +212,14 @@ func streamPkcs8() {
 			parseCase(fmt.Sprintf("pkcs8-%s-badscalar-%d", n, i), handPkcs8(n, d, bl, good, 0, true, false), good)
 		}
 		parseCase("pkcs8-"+n+"-longscalar-zeros", handPkcs8(n, good.D, bl+2, good, 0, true, false), good)
+		// scalars with leading zero octets, written without them (older OpenSSL): tolerated, and still the same key
+		for z := 1; z <= 3; z++ {
+			b := make([]byte, bl-z)
+			rng.Read(b)
+			b[0] |= 1
+			sk := ecKey(n, new(big.Int).SetBytes(b))
+			parseCase(fmt.Sprintf("pkcs8-%s-stripped-%d", n, z), handPkcs8(n, sk.D, bl-z, sk, 0, true, false), sk)
+		}
 		parseCase("pkcs8-"+n+"-inner-params", handPkcs8(n, good.D, bl, good, 0, true, true), good)
 		parseCase("pkcs8-"+n+"-inner-params-only", handPkcs8(n, good.D, bl, good, 0, false, true), good)
 		parseCase("pkcs8-"+n+"-no-params", handPkcs8(n, good.D, bl, good, 0, false, false), good)
